@@ -221,7 +221,7 @@ CORNERS = [
 
 
 def generate(tier, rng):
-    n = 4000 if tier == "quick" else 70000
+    n = 9000 if tier == "quick" else 70000
     for c in CORNERS:
         yield c
     names = list(UNIVERSES)
